@@ -1,18 +1,8 @@
-"""Registry: which engines, theorem files and kernels decide each property."""
+"""Registry: which engines, theorem files and kernels decide each property.
+One JSON file per property under harness/propdefs/ (keys: engines, prop_files?, kernels?, trusted_base,
+assumptions, n?)."""
+import os, json, glob
 
-HW_TB = ["hand-written structure-mirroring Gallina model of elaborate(); tied to /repo only by the port-level correspondence run (not translated)",
-         "Amaranth 0.5.10 simulator semantics (comb/sync, Switch/Case, last assignment wins)"]
-
-PROPS = {
-    "C08": {
-        "engines": ["arbiter"],
-        "trusted_base": HW_TB + ["modelled: wishbone.Arbiter.elaborate (bus.py:444-502); Arbiter.add() validation is exercised by the harness only"],
-        "assumptions": ["single clock domain, no reset after time 0"],
-    },
-    "C09": {
-        "engines": ["arbiter"],
-        "trusted_base": HW_TB + ["modelled: grant update chain of wishbone.Arbiter.elaborate (bus.py:447-468)"],
-        "assumptions": ["single clock domain, no reset after time 0",
-                        "fairness premise as in the property: owners eventually release the bus"],
-    },
-}
+PROPS = {}
+for _f in sorted(glob.glob(os.path.join(os.path.dirname(os.path.abspath(__file__)), "propdefs", "C*.json"))):
+    PROPS[os.path.basename(_f)[:-5]] = json.load(open(_f))
